@@ -18,8 +18,11 @@ DECLINED = [
 ]
 
 
-def tile_index_term(fn):
-    return ("call", M + "::GetTileIndex", ("this",), (P(fn, len(fn.params) - 2), P(fn, len(fn.params) - 1)))
+def tile_index_term(fn, F=None):
+    args = (P(fn, len(fn.params) - 2), P(fn, len(fn.params) - 1))
+    if F is not None:
+        return F.call_value(M + "::GetTileIndex", ("this",), args)
+    return ("call", M + "::GetTileIndex", ("this",), args)
 
 
 def accessors(F, S):
@@ -29,7 +32,7 @@ def accessors(F, S):
         gf = F.fn(M + "::" + g, nparams=2)
         sf = F.fn(M + "::" + s, nparams=3)
         rets = returns(gf)
-        want_g = ("mem", ("idx", ("mem", ("this",), "tiles"), tile_index_term(gf)), field)
+        want_g = ("mem", ("idx", ("mem", ("this",), "tiles"), tile_index_term(gf, F)), field)
         inst = "%s::%s~%s" % (M, g, s)
         stores = [nd for nd in sf.nodes if is_store(nd)]
         req = "getter reads and setter writes tiles[GetTileIndex(x, y)].%s; the setter stores its argument there and nothing else" % field
@@ -37,7 +40,7 @@ def accessors(F, S):
         if good:
             lt = sf.term(sf.kids(stores[0]["id"])[0])
             rt = sf.term(sf.kids(stores[0]["id"])[1])
-            want_s = ("mem", ("idx", ("mem", ("this",), "tiles"), tile_index_term(sf)), field)
+            want_s = ("mem", ("idx", ("mem", ("this",), "tiles"), tile_index_term(sf, F)), field)
             good = lt == want_s and rt == P(sf, 0)
         if good:
             out.append(ok("R-SIB", inst, sf.loc(stores[0]["id"]), sf.qn, req, "same member path on both sides"))
@@ -87,7 +90,7 @@ def mapping_getters(F):
     out = []
     tm = F.fn(M + "::GetTileMappingIndex", nparams=2)
     r = returns(tm)
-    want = ("mem", ("idx", ("mem", ("this",), "tiles"), tile_index_term(tm)), "tileMappingIndex")
+    want = ("mem", ("idx", ("mem", ("this",), "tiles"), tile_index_term(tm, F)), "tileMappingIndex")
     inst = M + "::GetTileMappingIndex#path"
     if len(r) == 1 and tm.term(r[0]["value"]) == want:
         out.append(ok("R-SIB", inst, tm.loc(r[0]["id"]), tm.qn, "returns tiles[GetTileIndex(x, y)].tileMappingIndex", fmt_term(want)))
